@@ -72,3 +72,36 @@ def canon_floats(w):
                 return w
         return [canon_floats(x) for x in w]
     return w
+
+
+def to_wire(x):
+    if isinstance(x, bool):
+        return "1" if x else "0"
+    if isinstance(x, int):
+        return str(x)
+    if isinstance(x, str):
+        return "(" + " ".join(str(ord(c)) for c in x) + ")"
+    if x is None:
+        return "()"
+    return "(" + " ".join(to_wire(y) for y in x) + ")"
+
+
+def from_wire(s):
+    toks = s.replace("(", " ( ").replace(")", " ) ").split()
+    stack = [[]]
+    for t in toks:
+        if t == "(":
+            stack.append([])
+        elif t == ")":
+            l = stack.pop()
+            stack[-1].append(l)
+        else:
+            stack[-1].append(int(t))
+    return stack[0][0]
+
+
+def canon_floats_w(w):
+    """string-level: only lines that contain a float value are parsed"""
+    if "(4 (" not in w:
+        return w
+    return to_wire(canon_floats(from_wire(w)))
